@@ -220,6 +220,12 @@ pub fn world_cfg(prop: &str, rng: &mut Rng) -> WorldCfg {
             exactness_toggles(&mut c, rng);
             if matches!(prop, "C09" | "C10") {
                 c.odd_widths = rng.chance(1, 4);
+                if rng.chance(1, 4) {
+                    // whatever the parser accepts must round-trip, also from a broken sender
+                    c.exporters.push(ExKind::Attacker);
+                    c.parser_of.push(0);
+                    c.corrupt = 100;
+                }
             }
             if prop == "C13" && rng.chance(1, 3) {
                 // chained buffers, some ending in an error: the flattened entry point must be
